@@ -13,9 +13,12 @@ theorem appx_catalog_iff_pe (c : Codec) (z : Bytes) (ps : Parts) (r : Signed) (h
   refine ⟨g, hg, ?_⟩
   rw [h10]; cases g.p.hasPE <;> rfl
 
-/-- full statement (not proved; FALSE for the unchanged code when the package has no PE member, F19): the model's
-    verifier accepts what the model's signer wrote, under the streams that were signed.  Needs the round trip
-    `Read ∘ WriteDirectory`; both sides are executed on every generated op (`v=` of stage 2 vs `signappx.Verify`). -/
+/-- full statement as first written: the model's verifier accepts what the model's signer wrote, under the streams that
+    were signed, for SOME codec.  It is FALSE as stated (`C01.not_appx_sign_then_verify_full` in C01_AppxFull.lean: empty
+    manifest part / F7a; also incoherent parts, `*.appx` members / F41, parts ≥ 4 GiB); the statement with the missing
+    hypotheses made explicit, for the SAME codec and without the PE condition (fix-F19), is proved there as
+    `C01.appx_sign_then_verify_zip`, on top of the round trip `Read ∘ WriteDirectory` (`C17.read_write_directory_own_output`).
+    Both sides are also executed on every generated op (`v=` of stage 2 vs `signappx.Verify`). -/
 def appx_sign_then_verify_full : Prop :=
   ∀ (c : Codec) (z : Bytes) (ps : Parts) (r : Signed), sign c z ps = .ok r → (∃ g, digest c z = .ok g ∧ g.p.hasPE = true) →
     ∃ c' : Codec, verify c' r.out r.streams (some r.bm) = .ok ()
